@@ -23,6 +23,11 @@ def run(chk):
                 init = kt.initial_centroids(how, X, K, seed=r.randint(0, 1000))
             except Exception as e:  # initialiser of dask_ml failing is not this package's behaviour
                 how = "array"
+        if i % 6 == 2 and how == "array":
+            # an explicit initial-centroid array of integer dtype is a legal input
+            cand = np.round(init).astype(np.int64)
+            if len({tuple(c) for c in cand.tolist()}) == len(cand) and kt.margin_ok(cand.astype(float), X):
+                init, how = cand, "int-array"
         cap = r.choice([1, 2, 3, 6])
         chunks = None if i % 3 else gen.random_composition(r, len(X), 4)
         ctx = {"init": hexlist(init), "X": hexlist(X), "shape": [K, D], "N": len(X), "cap": cap,
@@ -33,7 +38,7 @@ def run(chk):
         for k in range(cap):
             ok_margin = ok_margin and kt.margin_ok(cents[-1], X)
             km1, _, _ = kt.run_kfit(cents[-1], X, None, cap=1)
-            cents.append(np.array(km1.centroids_))
+            cents.append(np.array(km1.centroids_, dtype=float))
         if not ok_margin:
             continue
         J = [kt.distortion(c, X) for c in cents]
